@@ -194,6 +194,21 @@ def run(tier, seed, replay=None):
         for b in vs:
             pairs.append((a, b))
             pairs.append((b, rnd.choice(vs)))
+    # compounds with a compound-typed field (chains with unnamed and with named fields): equal labels, different tails
+    def chain(tag, labels, end):
+        t = end
+        for l in reversed(labels):
+            t = ["comp", tag, l, t]
+        return t
+    for _ in range(150 if tier == "quick" else 1500):
+        tag = rnd.choice(["TLink", "NLink"])
+        labs = [rnd.choice([1, 2, "x0"]) for _ in range(rnd.randint(1, 3))]
+        end = rnd.choice(["nil", "x1"])
+        a = chain(tag, labs, end)
+        vs = [chain(tag, labs[:1], end), chain(tag, labs, "nil" if end != "nil" else "x1"), chain(tag, labs[:-1] + [3], end),
+              chain(tag, labs + [1], end), chain("NLink" if tag == "TLink" else "TLink", labs, end), a]
+        for b in vs:
+            pairs.append((a, b))
     for a, b in pairs:
         cases.append(("eq", a, b))
     # the same relation after the first term was walked (not changed) through head_mut / tail_mut / iter_mut on a shared handle
